@@ -33,6 +33,11 @@ class Prop:
     def known(self, line, k, o):
         return None
 
+    def in_domain(self, line):
+        """for properties whose model is the definition (k_is_o): is this case inside what the property text quantifies over? A disagreement outside it is a broken
+        correspondence (searched, reported without a failing input), not a failing input of the property."""
+        return True
+
     def nontrivial(self, line, k):
         return True
 
@@ -178,8 +183,8 @@ def run_check(prop, argv):
                                   'readable': prop.describe(r['line']), 'implementation': r.get('impl_raw'), 'model': r.get('model_k'),
                                   'how_to_replay': f'./check {pid} --replay <this file>'})
         violation = (path, '', f"{why}: {prop.describe(r['line'])} -> {str(r.get('impl_raw'))[:200]}")
-    elif disagreements and prop.k_is_o:
-        r, diff = smallest(disagreements)
+    elif prop.k_is_o and [d for d in disagreements if prop.in_domain(d[0]['line'])]:
+        r, diff = smallest([d for d in disagreements if prop.in_domain(d[0]['line'])])
         path = write_replay(pid, {'property': pid, 'kind': 'disagrees-with-definition', 'fields': diff, 'case': r['line'], 'variant': r['variant'],
                                   'readable': prop.describe(r['line']), 'implementation': r['impl_raw'], 'model': r['model_k']})
         violation = (path, '', f"implementation differs from the definition on {diff}: {prop.describe(r['line'])}\n   impl : {str(r['impl_k'])[:300]}\n   model: {str(r['model_k'])[:300]}")
@@ -198,8 +203,8 @@ def run_check(prop, argv):
             dis2, of2, _ = judge(prop, recs2)
             if of2:
                 found = smallest(of2)
-            elif dis2 and prop.k_is_o:
-                r, diff = smallest(dis2)
+            elif prop.k_is_o and [d for d in dis2 if prop.in_domain(d[0]['line'])]:
+                r, diff = smallest([d for d in dis2 if prop.in_domain(d[0]['line'])])
                 found = (r, 'implementation differs from the definition on ' + str(diff))
             elif dis2 and not disagreements:
                 disagreements = dis2
